@@ -44,6 +44,8 @@ typedef struct
 static prog_t progs[MAX_THREADS];
 static int nthreads = 0;
 static int rounds = 3;
+static unsigned long schedules[16];
+static int nschedules = 0;
 static pthread_barrier_t barrier;
 
 static uint64_t fold(uint64_t h, const void *p, size_t n)
@@ -91,13 +93,30 @@ static unsigned char *unhex(const char *hex, size_t *len)
     return out;
 }
 
-static uint64_t run_program(const prog_t *p)
+typedef struct
 {
     cJSON *slot[SLOTS];
-    uint64_t h = 1469598103934665603ULL;
-    int i;
-    memset(slot, 0, sizeof(slot));
-    for (i = 0; i < p->nops; i++)
+    uint64_t h;
+    int pc;
+} pstate_t;
+
+static void state_init(pstate_t *st)
+{
+    memset(st->slot, 0, sizeof(st->slot));
+    st->h = 1469598103934665603ULL;
+    st->pc = 0;
+}
+
+/* executes the next operation of the program; returns 0 when the program has ended */
+static int step_program(const prog_t *p, pstate_t *st)
+{
+    cJSON **slot = st->slot;
+    uint64_t h = st->h;
+    int i = st->pc;
+    if (i >= p->nops)
+    {
+        return 0;
+    }
     {
         const op_t *o = &p->ops[i];
         int a = (int)(o->a % SLOTS);
@@ -322,17 +341,81 @@ static uint64_t run_program(const prog_t *p)
                 break;
         }
     }
+    st->h = h;
+    st->pc = i + 1;
+    return 1;
+}
+
+static uint64_t finish_program(pstate_t *st)
+{
+    int i;
+    uint64_t h = st->h;
     for (i = 0; i < SLOTS; i++)
     {
-        if (slot[i] != NULL)
+        if (st->slot[i] != NULL)
         {
-            char *t = cJSON_PrintUnformatted(slot[i]);
+            char *t = cJSON_PrintUnformatted(st->slot[i]);
             h = fold_str(h, t);
             cJSON_free(t);
-            cJSON_Delete(slot[i]);
+            cJSON_Delete(st->slot[i]);
+            st->slot[i] = NULL;
         }
     }
     return h;
+}
+
+static uint64_t run_program(const prog_t *p)
+{
+    pstate_t st;
+    state_init(&st);
+    while (step_program(p, &st))
+    {
+    }
+    return finish_program(&st);
+}
+
+/* schedule-owned interleaving: all programs advance in ONE thread, one library call at a time, in an order drawn from
+ * a small PRNG; state the library keeps between calls (caches, memoised lookups, self-tuning sizes) is then shared by
+ * the logical threads in a known order, which the OS scheduler only produces by luck */
+static int run_interleaved(unsigned long seed, const uint64_t *solo)
+{
+    static pstate_t st[MAX_THREADS];
+    int alive[MAX_THREADS];
+    int nalive = nthreads;
+    int i;
+    int bad = 0;
+    unsigned long x = seed * 2862933555777941757UL + 3037000493UL;
+    for (i = 0; i < nthreads; i++)
+    {
+        state_init(&st[i]);
+        alive[i] = i;
+    }
+    while (nalive > 0)
+    {
+        int k;
+        int burst;
+        x = x * 6364136223846793005UL + 1442695040888963407UL;
+        k = (int)((x >> 33) % (unsigned long)nalive);
+        burst = (seed % 3 == 0) ? 1 : 1 + (int)((x >> 20) % 3);
+        while (burst-- > 0)
+        {
+            if (!step_program(&progs[alive[k]], &st[alive[k]]))
+            {
+                alive[k] = alive[--nalive];
+                break;
+            }
+        }
+    }
+    for (i = 0; i < nthreads; i++)
+    {
+        uint64_t d = finish_program(&st[i]);
+        if (d != solo[i])
+        {
+            printf("DIGEST-MISMATCH interleaved schedule %lu thread %d: %016llx vs solo %016llx\n", seed, i, (unsigned long long)d, (unsigned long long)solo[i]);
+            bad++;
+        }
+    }
+    return bad;
 }
 
 static void *thread_main(void *arg)
@@ -379,6 +462,18 @@ int main(int argc, char **argv)
         {
             free(hex);
             continue;
+        }
+        {
+            unsigned long sv;
+            if (sscanf(line, "schedule %lu", &sv) == 1)
+            {
+                if (nschedules < 16)
+                {
+                    schedules[nschedules++] = sv;
+                }
+                free(hex);
+                continue;
+            }
         }
         if (sscanf(line, "%d %c %ld %ld %ld %ld %s", &tid, &opc, &a, &b, &c, &d, hex) >= 2 && tid >= 0 && tid < MAX_THREADS)
         {
@@ -453,6 +548,10 @@ int main(int argc, char **argv)
                 }
             }
         }
+    }
+    for (i = 0; i < nschedules; i++)
+    {
+        mismatches += run_interleaved(schedules[i], solo);
     }
     printf("done mismatches=%d\n", mismatches);
     return mismatches ? 3 : 0;
